@@ -4,7 +4,9 @@
     No [Extract Constant]. *)
 From Coq Require Extraction ExtrOcamlBasic.
 From SA Require Import Model.
-From SA.Mon Require Import C09 C07 C12 Control C15.
+From SA.Mon Require Import C09 C07 C12 Control C15 C18.
+From SA.Spec Require Import Json Codec.
 Extraction Language OCaml.
 Extraction "model.ml" run binop_name prim_ty_name cmpop_name logicop_name err_kind_name all_err_kind
-  chk_C09 chk_C07 judged_C07 chk_C12 chk_C10_unique chk_C10_resolve chk_C11 chk_C05 chk_C15.
+  chk_C09 chk_C07 judged_C07 chk_C12 chk_C10_unique chk_C10_resolve chk_C11 chk_C05 chk_C15 chk_C18
+  enc_program enc_stack enc_errors enc_gstack.
